@@ -1,0 +1,61 @@
+//! Verification-only hooks (cargo feature `verif`).
+//!
+//! Thin public wrappers around crate-private items so that external harness crates
+//! (Kani harnesses, the native replay binary) can drive them.  Nothing here changes
+//! behaviour; with the feature off this module does not exist.
+
+use bls12_381::verif_internal as vi;
+use bls12_381::{Fq, Fq2, VerifClearH, VerifIsogenyMap, VerifOSSWUMap, G1, G2};
+use ff::{Field, PrimeFieldRepr};
+use CurveProjective;
+
+pub use bls12_381::{
+    VerifClearH as ClearH, VerifIsogenyMap as IsogenyMap, VerifOSSWUMap as OSSWUMap,
+};
+
+pub fn wnaf_table<G: CurveProjective>(table: &mut Vec<G>, base: G, window: usize) {
+    ::wnaf::wnaf_table(table, base, window)
+}
+pub fn wnaf_form<S: PrimeFieldRepr>(wnaf: &mut Vec<i64>, c: S, window: usize) {
+    ::wnaf::wnaf_form(wnaf, c, window)
+}
+pub fn wnaf_exp<G: CurveProjective>(table: &[G], wnaf: &[i64]) -> G {
+    ::wnaf::wnaf_exp(table, wnaf)
+}
+
+pub fn g1_osswu_map(u: &Fq) -> G1 {
+    <G1 as VerifOSSWUMap>::osswu_map(u)
+}
+pub fn g2_osswu_map(u: &Fq2) -> G2 {
+    <G2 as VerifOSSWUMap>::osswu_map(u)
+}
+pub fn g1_isogeny_map(p: &mut G1) {
+    <G1 as VerifIsogenyMap>::isogeny_map(p)
+}
+pub fn g2_isogeny_map(p: &mut G2) {
+    <G2 as VerifIsogenyMap>::isogeny_map(p)
+}
+pub fn g1_clear_h(p: &mut G1) {
+    <G1 as VerifClearH>::clear_h(p)
+}
+pub fn g2_clear_h(p: &mut G2) {
+    <G2 as VerifClearH>::clear_h(p)
+}
+pub fn chain_z<P: CurveProjective>(out: &mut P, inp: &P) {
+    vi::chain_z(out, inp)
+}
+pub fn chain_h2_eff<P: CurveProjective>(out: &mut P, inp: &P) {
+    vi::chain_h2_eff(out, inp)
+}
+pub fn eval_iso<P: CurveProjective>(pt: &mut P, coeffs: [&[P::Base]; 4]) {
+    vi::eval_iso(pt, coeffs)
+}
+pub fn osswu_help<F: Field>(u: &F, xi: &F, ellp_a: &F, ellp_b: &F) -> [F; 7] {
+    vi::osswu_help(u, xi, ellp_a, ellp_b)
+}
+pub fn chain_pm3div4(out: &mut Fq, inp: &Fq) {
+    vi::chain_pm3div4(out, inp)
+}
+pub fn chain_p2m9div16(out: &mut Fq2, inp: &Fq2) {
+    vi::chain_p2m9div16(out, inp)
+}
